@@ -10,6 +10,10 @@ CLAIMED = {
          "Trusts CPython's json, ast.literal_eval, tomllib and float(); for YAML the decoder is rsjsonnet's own std.parseYaml (third-party saphyr parser) plus a strict reader of the emitted grammar.",
          "DESIGN.md section 5 / C05"),
 }
+CLAIMED["C06"] = ("property-based testing (Hypothesis): boundary-grid and random doubles through every operator/std function (validity oracle + IEEE differential), generated literal texts vs CPython float(), printed text vs repr()",
+         "Exploration: generated operands, literal texts and doubles; oracles are IEEE arithmetic in CPython, correctly rounded float(), shortest-round-trip repr(). Right level because the property quantifies over all doubles and literal shapes.",
+         "Trusts CPython float()/repr()/math.fmod and that the engine transports doubles as bit patterns.",
+         "DESIGN.md section 5 / C06")
 NOT_YET = {}
 
 def main():
